@@ -65,7 +65,7 @@ def match_known(kf, prop, unit, failure):
             continue
         if prop not in ([e['property']] + e.get('also_properties', [])) or e['unit'] != unit:
             continue
-        if e['obligation'] in failure['description'] or e['obligation'] in failure['property']:
+        if any(o in failure['description'] or o in failure['property'] for o in [e['obligation']] + e.get('also_obligations', [])):
             loc = failure.get('location', {})
             if e.get('line_text'):
                 try:
@@ -190,8 +190,12 @@ def write_evidence(prop, tier, seed, results, viol_records, known_hits, wall, pa
     meta = load_json(os.path.join(VERIF, 'tool', 'props.json'), {}).get(prop, {})
     p_units = [r for r in results if r['kind'] in PROOF_KINDS]
     b_units = [r for r in results if r['kind'] not in PROOF_KINDS]
-    ob = sum(r['obligations'] for r in p_units if r['status'] == core.HOLDS or r['failed'])
-    di = sum(r['discharged'] for r in p_units)
+    # obligations that fail only because of a recorded known finding are reported separately, not as proof obligations
+    kf_per_unit = {}
+    for e, r, f in known_hits:
+        kf_per_unit[r['name']] = kf_per_unit.get(r['name'], 0) + 1
+    ob = sum(r['obligations'] - kf_per_unit.get(r['name'], 0) for r in p_units if r['status'] == core.HOLDS or r['failed'])
+    di = sum(r['discharged'] for r in p_units if r['status'] == core.HOLDS or r['failed'])
     funcs = []
     trusted = set(meta.get('trusted_base', []))
     assumptions = set(meta.get('assumptions', []))
@@ -230,7 +234,8 @@ def write_evidence(prop, tier, seed, results, viol_records, known_hits, wall, pa
                              '_dbus_verbose(...) -> nothing'] + meta.get('extraction_drops', []),
         'undecided': [{'unit': r['name'], 'reason': r['reason']} for r in results if r['status'] == core.UNDECIDED],
         'violations': viol_records,
-        'known_findings_hit': [e['id'] for e, _, _ in known_hits],
+        'known_findings_hit': sorted(set(e['id'] for e, _, _ in known_hits)),
+        'known_finding_obligations': sum(kf_per_unit.values()),
         'not_decided_clauses': meta.get('not_decided', []),
         'machine_arithmetic': 'CBMC bit-precise: C integers are fixed-width bit vectors; no mathematical-integer abstraction',
     }
